@@ -14,7 +14,7 @@ fn fault_scenario(name: &str, fam: (crate::core::Config, Vec<crate::core::Tx>, c
 }
 
 /// one hash column; a key overwritten with another value (other size class) and a second key
-fn overwrite_family() -> (crate::core::Config, Vec<crate::core::Tx>, crate::core::Tx) {
+pub fn overwrite_family() -> (crate::core::Config, Vec<crate::core::Tx>, crate::core::Tx) {
 	use crate::core::*;
 	let k = |i: u32| B::pat(6, 2100 + i);
 	let cfg = Config::new(vec![ColSpec::hash()]);
@@ -66,7 +66,7 @@ fn growth_fault_scenario(name: &str, max_batches: usize) -> Scenario {
 }
 
 /// the i-th commit of a history is the i-th transaction of the alphabet (all stage interleavings stay)
-fn ordered(mut s: Scenario) -> Scenario {
+pub fn ordered(mut s: Scenario) -> Scenario {
 	use crate::core::Ev;
 	let alpha = s.alphabet.clone();
 	s.filter = Some(std::sync::Arc::new(move |hist: &[Ev], ev: &Ev| match ev {
